@@ -1539,6 +1539,21 @@ class LuaMinifyTokenWriter(BaseLuaWriter):
         Yields:
           Chunks of Lua code.
         """
+        last_chunk = b''
+        for chunk in self._to_chunks():
+            # Keep adjacent symbols from fusing into a different token or a
+            # comment, e.g. "a - -b", "x .. ...", "t[ [[k]] ]".
+            if last_chunk[-1:] + chunk[:1] in (b'--', b'..', b'[[', b'[='):
+                yield b' '
+            if chunk:
+                last_chunk = chunk
+            yield chunk
+
+    def _to_chunks(self):
+        """
+        Yields:
+          Chunks of Lua code, without regard to symbols that would fuse.
+        """
         seen_header_comments = 0
         seen_non_comment_token = False
 
